@@ -262,6 +262,20 @@ type TEmbedded3 struct {
 	W float64
 }
 
+// TMapMore: map values that are arrays (referenced, not copied, when
+// deconstructed) and optional non-pointer values.
+type TMapMore struct {
+	MA map[string][4]byte
+	MU map[string][16]byte
+	MO map[string]string `parquet:"," parquet-value:",optional"`
+}
+
+// TIntervals: the INTERVAL logical type on its Go struct.
+type TIntervals struct {
+	ID int32
+	I  parquet.Interval `parquet:",interval"`
+}
+
 type tTimeIn struct {
 	T time.Time `parquet:",optional"`
 	N int32
@@ -515,7 +529,7 @@ var rowTypes = []*RT{
 	mkRT[TNested]("Nested"), mkRT[TSliceOfStruct]("SliceOfStruct"), mkRT[TListOfStruct]("ListOfStruct"),
 	mkRT[TListOfList]("ListOfList"), mkRT[TMap]("Map"), mkRT[TMapOfStruct]("MapOfStruct"),
 	mkRT[TMapOfSlice]("MapOfSlice"), mkRT[TEmbedded]("Embedded"), mkRT[TDeep]("Deep"), mkRT[TBoolRuns]("BoolRuns"),
-	mkRT[TStrings]("Strings"), mkRT[TFloatsOnly]("FloatsOnly"), mkRT[TPtrStructList]("PtrStructList"), mkRT[TDictNested]("DictNested"), mkRT[TOptStruct]("OptStruct"), mkRT[TEmbeddedMid]("EmbeddedMid"), mkRT[TDictFixed]("DictFixed"), mkRT[TIntTags]("IntTags"), mkRT[TFixedArrays]("FixedArrays"), mkRT[TTimeLogical]("TimeLogical"), mkRT[TEmbedded3]("Embedded3"),
+	mkRT[TStrings]("Strings"), mkRT[TFloatsOnly]("FloatsOnly"), mkRT[TPtrStructList]("PtrStructList"), mkRT[TDictNested]("DictNested"), mkRT[TOptStruct]("OptStruct"), mkRT[TEmbeddedMid]("EmbeddedMid"), mkRT[TDictFixed]("DictFixed"), mkRT[TIntTags]("IntTags"), mkRT[TFixedArrays]("FixedArrays"), mkRT[TTimeLogical]("TimeLogical"), mkRT[TEmbedded3]("Embedded3"), mkRT[TMapMore]("MapMore"), mkRT[TIntervals]("Intervals"),
 }
 
 // ---------------------------------------------------------------------------
@@ -650,7 +664,7 @@ func fieldAlphabet(f reflect.StructField) []reflect.Value {
 			base = append(base, reflect.ValueOf(d))
 		}
 	case elem == timeType && strings.Contains(tag, "timestamp(millisecond)"):
-		for _, d := range []time.Time{time.Unix(0, 0).UTC(), time.Date(2024, 2, 29, 23, 59, 59, 999000000, time.UTC), time.Date(1969, 12, 31, 23, 59, 59, 999000000, time.UTC)} {
+		for _, d := range []time.Time{time.Unix(0, 0).UTC(), time.Date(2024, 2, 29, 23, 59, 59, 999000000, time.UTC), time.Date(1969, 12, 31, 23, 59, 59, 999000000, time.UTC), time.Date(3000, 1, 1, 0, 0, 0, 1000000, time.UTC), time.Date(1000, 6, 15, 12, 0, 0, 0, time.UTC)} {
 			base = append(base, reflect.ValueOf(d))
 		}
 	case elem == durationType && strings.Contains(tag, "time("):
